@@ -440,3 +440,35 @@ pub fn hostile_line(t: &mut Tape, sec: Sec) -> String {
         Sec::Colours => colour_line(t),
     }
 }
+
+/// Text-level entry of the `grammar` fuzz target: arbitrary text after a version line. The framing model
+/// assigns lines to sections; Ok(false) = a line lands outside the six key/value sections (not this
+/// property's domain) or the case does not survive re-rendering.
+pub fn fuzz_text(text: &str) -> Result<bool, Fail> {
+    use crate::refmodel::framing::frame;
+    use rosu_map::section::Section;
+    let full = format!("osu file format v14\n{text}");
+    let fr = frame(&full);
+    if fr.version != 14 || fr.trace.is_empty() {
+        return Ok(false);
+    }
+    let mut lines = vec![];
+    for (s, l) in &fr.trace {
+        let sec = match s {
+            Section::General => Sec::General,
+            Section::Editor => Sec::Editor,
+            Section::Metadata => Sec::Metadata,
+            Section::Difficulty => Sec::Difficulty,
+            Section::Events => Sec::Events,
+            Section::Colors => Sec::Colours,
+            _ => return Ok(false),
+        };
+        lines.push((sec, l.clone()));
+    }
+    let case = Case { lines };
+    let file = case.text();
+    if frame(&file).trace != fr.trace {
+        return Ok(false);
+    }
+    evaluate(&case).map(|_| true).map_err(|m| Fail::new(m, "osu", file.into_bytes()))
+}
